@@ -33,6 +33,12 @@ evaluates on the transformed input, and the result is — blockwise, on its chan
 its box and at tensor multi-indices of the declared order — the transformed output, each block
 transforming with the type `(k, p)` it is stored under (`MI.Equiv y' (act g y)`).
 
+Further: `hC07_discharged` / `trained_net_equivariant` (the hypothesis `hC07` of C09 instantiated:
+training cannot break the equivariance of these networks), `net_shift` / `resnet_shift` /
+`dilresnet_shift` (cyclic translations along toroidal axes), `unet_shift_multiple_statement`
+(+ `_partial`), and non-vacuity examples (a concrete configuration satisfying every hypothesis for
+every `g ∈ B_2`, a net with pooling satisfying `WellFormed` and `PoolGeneric`).
+
 The forward pass is tied to the code structurally (layer plan `trace`, diffed against the recorded
 forward pass of the real model); the per-layer numerics are those of C06 / C08 / C11.
 -/
